@@ -287,6 +287,12 @@ class OpWorld(World):
             payload = self.lift(it, args[0]) if args else None
             self.struct[side].append(("each", lst.term, method, payload))
             self.events.append(("each", side, method))
+            if h is not None and getattr(h, "in_handler", False) and getattr(h.c, "reentrant", False):
+                # the subscribers of these subjects may call back into the operator from here (the body changes no state)
+                if side == "impl":
+                    self.snaps["impl"].append(h.capture_impl())
+                elif h.cur_spec is not None:
+                    self.snaps["spec"].append(h.capture_spec(h.cur_spec))
 
     def broadcast_general(self, it, st, env, lst):
         """a loop over a symbolic list of subjects whose body is not literally `x.m(args)`: run ONE iteration for an arbitrary
@@ -1024,9 +1030,12 @@ class OpHarness:
                 return self.w.new_subject(it)
             if isinstance(f, ClassRef) and f.name == "GroupedObservable":
                 a = list(args) + [kwargs.get("merged_disposable")] * (3 - len(args))
-                return shared_face(it, a[0], a[1], a[2] is not None and a[2] is getattr(self, "disp", None))
+                if a[2] is not None:
+                    self.share_objs.append(a[2])
+                return shared_face(it, a[0], a[1], a[2] is not None)
             if isinstance(f, Closure) and f.qualname == "add_ref" and f.module is not None and f.module.name == "reactivex.internal.utils":
-                return shared_face(it, None, args[0], args[1] is getattr(self, "disp", None))
+                self.share_objs.append(args[1])
+                return shared_face(it, None, args[0], True)
         if not (isinstance(f, Closure) and f.module is not None and hasattr(f.node, "name")):
             return NOTSET
         c = self.callees.get((f.module.name, f.qualname))
@@ -1054,6 +1063,7 @@ class OpHarness:
         w.harness = self
         self.entered = False
         self.in_handler = False
+        self.share_objs = []
         self.cur_spec = None
         self.cur_cells_env = None
         it = Interp(self.loader, ctx, w)
@@ -1179,6 +1189,12 @@ class OpHarness:
     def compare_subscriptions(self, it, ctx, oid, n_before):
         """the inner sources the real code subscribed to during this step are exactly those the spec subscribes"""
         w = self.w
+        if self.share_objs and getattr(self, "disp", None) is not None:
+            # every window / group handed downstream shares THE ref-counted disposable this subscription returned
+            ok_share = all(x is self.disp and isinstance(x, Obj) and x.cls.name == "RefCountDisposable" for x in self.share_objs)
+            self.record(ctx, oid + "/windows-share-the-ref-count-of-the-returned-subscription", ok_share, kind="frame",
+                        detail="the observable handed downstream must take its share from the RefCountDisposable that subscribe returned")
+            self.share_objs = []
         impl, spec = w.struct["impl"], w.struct["spec"]
         if [e[0] for e in impl] != [e[0] for e in spec]:
             self.fail(ctx, oid + "/inner-subscriptions/order",
@@ -1263,6 +1279,21 @@ class OpHarness:
             return
         invd = self.check_inv(it, ctx, uid, cells_env, s, base=c.inv_done)
         self.record(ctx, uid + "/terminated-invariant-established", natives.mk_or((not done2) if isinstance(done2, bool) else z3.Not(done2), invd), kind="inv")
+
+    def own_env_of(self, hd, depth=0):
+        """the operator's own closure scope behind a handler / action (looking through synchronized(...) wrappers)"""
+        modname = modname_of(self.c.file)
+        if isinstance(hd, Closure) and depth < 4:
+            if hd.module is not None and hd.module.name == modname:
+                return hd.env
+            e = hd.env
+            while e is not None:
+                if "fn" in e.vars:
+                    r = self.own_env_of(e.vars["fn"], depth + 1)
+                    if r is not None:
+                        return r
+                e = e.parent
+        return None
 
     def cell_identities(self, it):
         """what each state cell currently is (terms of symbolic collections / maps, identities otherwise)"""
@@ -1418,8 +1449,30 @@ class OpHarness:
                 return SV(z3.Empty(smt.SeqVal), "seq")
             return SV(z3.Concat(*ps) if len(ps) > 1 else ps[0], "seq")
 
+        # loops that notify subjects (`while q: q.pop(0).on_error(e)`): `sent` = the subjects notified by the loop so far, in
+        # order; the contract names the notification every iteration sends: each=(method, payload expression)
+        side = getattr(w, "side", "impl")
+        ns0 = len(w.struct[side])
+        each = lc.get("each")
+        each_payload = None
+        if each is not None and each[1] is not None:
+            each_payload = w.lift(it, self.eval_src(it, each[1], env))
+
+        def sent():
+            ps = []
+            for e in w.struct[side][ns0:]:
+                if e[0] == "to":
+                    ps.append(z3.Unit(e[1]))
+                elif e[0] == "each":
+                    ps.append(e[1])
+            if not ps:
+                return ListObj(term=z3.Empty(smt.SeqVal), elem="ref:subject")
+            return ListObj(term=z3.Concat(*ps) if len(ps) > 1 else ps[0], elem="ref:subject")
+
         def inv_term():
             lenv.vars["emitted"] = emitted()
+            if each is not None:
+                lenv.vars["sent"] = sent()
             ctx.spec += 1
             try:
                 return it.truth_term(self.eval_src(it, lc["inv"], lenv))
@@ -1436,6 +1489,12 @@ class OpHarness:
             em = ctx.fresh("emitted", "seq")
             del tr.pieces[n0:]
             tr.pieces.append(em.t)
+        if each is not None:
+            # the iterations so far notified some sequence of subjects (each with the declared notification)
+            sv = ctx.fresh("sent", "seq").t
+            del w.struct[side][ns0:]
+            w.struct[side].append(("each", sv, each[0], each_payload))
+        ns1 = len(w.struct[side])
         it_ = inv_term()
         ctx.assume(it_ if not isinstance(it_, bool) else z3.BoolVal(it_))
         if it.truth(it.eval(st.test, env), "while " + ast.unparse(st.test)[:60]):
@@ -1451,6 +1510,14 @@ class OpHarness:
             except _Continue:
                 pass
             self.record(ctx, oid + "/inv-preserved", inv_term(), kind="loop")
+            if each is not None:
+                for e in w.struct[side][ns1:]:
+                    same_kind = e[0] == "to" and e[2] == each[0]
+                    self.record(ctx, oid + f"/every-iteration-sends-{each[0]}-to-one-subject", same_kind, kind="loop",
+                                detail=f"the iteration does: {e[0]} {e[2] if len(e) > 2 else ''}")
+                    if same_kind and (each_payload is not None or e[3] is not None):
+                        self.record(ctx, oid + f"/every-iteration-sends-{each[0]}-with-the-declared-payload",
+                                    (e[3] == each_payload) if (e[3] is not None and each_payload is not None) else False, kind="loop")
             if dec0 is not None:
                 ctx.spec += 1
                 dec1 = it.to_int(self.eval_src(it, lc["decreases"], lenv))
@@ -1518,10 +1585,12 @@ class OpHarness:
             self.phase = "handlers"
         self.spec_call(it, s, "on_subscribe", [Opaque("observer", "spec_out")])
         self.compare_traces(ctx, f"{uid}/subscribe/out", w.trace("observer"), w.trace("spec_out"))
-        if getattr(c, "timed", False):
+        if getattr(c, "timed", False) or getattr(c, "subjects", False):
             self.cur_spec = s
+            self.disp = disp
             self.compare_subscriptions(it, ctx, f"{uid}/subscribe", 0)
-            s.fields["clock"] = IntSV(w.now_term)
+            if getattr(c, "timed", False):
+                s.fields["clock"] = IntSV(w.now_term)
         for k, snap in enumerate(self.sub_snaps):
             missing = [x[1] for x in snap if x[0] == "missing"]
             if missing:
@@ -1535,6 +1604,8 @@ class OpHarness:
         cells_env = None
         allh = []
         for (src, hs, kw, d) in w.subs:
+            if src.name not in c.sources:
+                continue  # a subscription to something a user function handed back: a family member, not a source
             handlers[src.name] = hs
             allh.extend(hs)
         cells_env = self.pick_cells_env(allh)
@@ -1653,6 +1724,10 @@ class OpHarness:
         # escapes" is still required.
         done = self.spec_done(it, ctx, s)
         is_done = done if isinstance(done, bool) else ctx.branch(done, "already-terminated")
+        if is_done and getattr(c, "ends_with_source", False):
+            # the output of this operator ends only with its source (checked below: no element ends it), and a source emits
+            # nothing after its terminal notification
+            raise PathEnd()
         live = getattr(c, "live", None)
         if live and len(c.sources) > 1:
             # source grammar: the source whose handler runs has not terminated before (it emits nothing after its terminal,
@@ -1722,6 +1797,9 @@ class OpHarness:
         done2 = self.spec_done(it, ctx, s)
         if slot != 0 and w.trace("spec_out").terminal is not None:
             done2 = True  # the spec machine ended the output in this step
+        if slot == 0 and getattr(c, "ends_with_source", False):
+            self.record(ctx, uid + "/an-element-never-ends-the-output", natives.mk_not(done2) if hasattr(natives, "mk_not") else
+                        ((not done2) if isinstance(done2, bool) else z3.Not(done2)), kind="inv")
         if slot == 0 or done2 is not True:
             inv2 = self.check_inv(it, ctx, uid, cells_env, s)
             self.record(ctx, uid + "/inv-preserved", natives.mk_or(done2, inv2), kind="inv")
@@ -1770,25 +1848,32 @@ class OpHarness:
         hname = ("on_next", "on_error", "on_completed")[slot]
         uid = f"{c.uid}/{fam}.{hname}"
         self.step_uid = uid
-        # --- creation step from an arbitrary state
-        self.havoc(it, ctx, cells_env, s)
-        done = self.spec_done(it, ctx, s)
-        if done if isinstance(done, bool) else ctx.branch(done, "already-terminated (creation)"):
-            raise PathEnd()
-        inv = self.check_inv(it, ctx, uid, cells_env, s)
-        ctx.assume(inv if not isinstance(inv, bool) else z3.BoolVal(inv))
-        inner = self.make_element(it, ctx)
-        n0 = len(w.subs)
-        nc0 = len(w.cspecs)
-        w.spec_subs.clear()
-        self.begin_step(w, cells_env, s)
-        try:
-            it.call(outer[0], [inner], {})
-        except PyExc:
-            raise PathEnd()
-        self.spec_call(it, s, "on_next", [Opaque("observer", "spec_out"), inner])
-        self.in_handler = False
-        ctx.results.clear()  # the creating step is verified as the outer on_next
+        at_subscribe = F.get("created_in") == "subscribe"
+        inner = None
+        if at_subscribe:
+            # the member the subscription itself creates (window_when's first closing observable); the members a member
+            # creates when it ends run the same handlers
+            n0, nc0 = 0, 0
+        else:
+            # --- creation step from an arbitrary state
+            self.havoc(it, ctx, cells_env, s)
+            done = self.spec_done(it, ctx, s)
+            if done if isinstance(done, bool) else ctx.branch(done, "already-terminated (creation)"):
+                raise PathEnd()
+            inv = self.check_inv(it, ctx, uid, cells_env, s)
+            ctx.assume(inv if not isinstance(inv, bool) else z3.BoolVal(inv))
+            inner = self.make_element(it, ctx)
+            n0 = len(w.subs)
+            nc0 = len(w.cspecs)
+            w.spec_subs.clear()
+            self.begin_step(w, cells_env, s)
+            try:
+                it.call(outer[0], [inner], {})
+            except PyExc:
+                raise PathEnd()
+            self.spec_call(it, s, "on_next", [Opaque("observer", "spec_out"), inner])
+            self.in_handler = False
+            ctx.results.clear()  # the creating step is verified as the outer on_next
         member = None
         for (src, hs, kw, d) in w.subs[n0:]:
             if src is inner or (c.elem != "source" and src.name not in c.sources):
@@ -1934,6 +2019,9 @@ class OpHarness:
         member = created[k]
         action, due = member["action"], member["due"]
         member_env = action.env if isinstance(action, Closure) and action.env is not None else cells_env
+        own = self.own_env_of(action)
+        if own is not None:
+            member_env = own  # an action wrapped by a decorator (synchronized): the wrapped function's scope
         # the ghost identity of this timer (e.g. the generation it was set for), read off the spec right after its creation
         ident = None
         if T.get("id"):
@@ -1942,6 +2030,13 @@ class OpHarness:
             ctx.spec -= 1
         if T.get("ghost_inv") and ident is not None:
             self.record(ctx, uid + "/ghost-invariant-established", self.ghost_eval(it, cells_env, s, T["ghost_inv"], ident), kind="inv")
+        if T.get("inv"):
+            # the timer's own invariant (over the action's closure scope) holds from the moment it was set
+            ex0 = {"due": IntSV(due)}
+            if ident is not None:
+                ex0["k"] = ident
+            inv_c = self.check_inv(it, ctx, uid, member_env, s, extra=ex0, more=T.get("inv"))
+            self.record(ctx, uid + "/timer-invariant-established-when-set", natives.mk_or(self.spec_done(it, ctx, s), inv_c), kind="inv")
         # --- an arbitrary later state in which this timer is still pending
         self.havoc(it, ctx, cells_env, s)
         done = self.spec_done(it, ctx, s)
